@@ -75,6 +75,16 @@ type Case struct {
 	// callers' early calls find no applicable method (error handled) and
 	// must find the new method once it is defined (seeded change C17-m2)
 	NoBase bool `json:"no_base,omitempty"`
+	// ViaFn (s1): every producer is started by one helper function that
+	// returns at once; the routine goes on using the function's parameters
+	// (seeded change C17-n2: call scopes recycled through a pool)
+	ViaFn bool `json:"via_fn,omitempty"`
+	// Shorts (s2): before each of the first Shorts long routines main starts
+	// a routine that ends at once, so that the number of routines sharing the
+	// scope falls to zero and rises again while routines are being started
+	// (seeded change C17-n1: the scope lock taken away when the last sharer
+	// ends)
+	Shorts int `json:"shorts,omitempty"`
 	// ConsFirst (s1): the consumers and the closer are started before the
 	// producers they wait for
 	ConsFirst bool     `json:"cons_first,omitempty"`
@@ -163,6 +173,8 @@ func (e *engine) Generate(seed uint64, idx int, tier string, avoid []harness.Fin
 		}
 		if r.Pct(20) {
 			c.ReadPush, c.Chunk, c.SleepMs = true, 1+r.Intn(5), 0
+		} else if r.Pct(30) {
+			c.ViaFn = true
 		} else if r.Pct(25) {
 			c.Nils = true
 			for i := range c.Cons {
@@ -181,6 +193,9 @@ func (e *engine) Generate(seed uint64, idx int, tier string, avoid []harness.Fin
 		}
 		c.IntAt = 1 + r.Intn(10*c.Iter+4)
 		c.Nested = r.Pct(35)
+		if r.Pct(40) {
+			c.Shorts = 1 + r.Intn(c.R)
+		}
 	case x < 70:
 		c.Scen = "s3"
 		c.R = 2 + r.Intn(3)
@@ -243,7 +258,7 @@ func (e *engine) Generate(seed uint64, idx int, tier string, avoid []harness.Fin
 }
 
 var s4Kinds = []string{"defvar", "defun", "generic", "print", "print", "printobj", "lambda", "exit", "exit", "defclass", "defflavor",
-	"defstruct", "defpackage", "defconstant", "unbind", "apropos", "describe", "unintern", "lookup"}
+	"defstruct", "defpackage", "defconstant", "unbind", "apropos", "describe", "unintern", "lookup", "readbase", "readbase"}
 
 // ---- program generation ----
 
@@ -266,8 +281,19 @@ func (c *Case) program(sfx string) program {
 			}
 		}
 		b.WriteString(")\n")
+		if c.ViaFn {
+			sl := ""
+			if c.SleepMs > 0 {
+				sl = fmt.Sprintf(" (sleep %g)", float64(c.SleepMs)/1000)
+			}
+			fmt.Fprintf(&b, " (defun startp%s (base n ch done) (run (progn (dotimes (i n) (channel-push ch (+ base i))%s) (channel-push done 1))))\n", sfx, sl)
+		}
 		headEnd := b.Len()
 		for p := 0; p < c.P; p++ {
+			if c.ViaFn {
+				fmt.Fprintf(&b, " (startp%s %d %d c pd)\n", sfx, (p+1)*1000, c.N)
+				continue
+			}
 			sl := ""
 			if c.SleepMs > 0 {
 				sl = fmt.Sprintf(" (sleep %g)", float64(c.SleepMs)/1000)
@@ -330,6 +356,9 @@ func (c *Case) program(sfx string) program {
 				crit = fmt.Sprintf("(with-mutex-lock m (sim-emit \"enter\" %d) (sim-emit \"work\" %d) (setq n (+ n 1)) (sim-emit \"exit\" %d))", t, t, t)
 			default:
 				crit = fmt.Sprintf("(with-mutex-lock m %s)", body)
+			}
+			if t < c.Shorts {
+				b.WriteString(" (run (+ 1 1))\n")
 			}
 			if c.Exits[t] == "interrupt" {
 				// the interrupt may land anywhere in the loop; it ends the loop
@@ -602,6 +631,13 @@ func (c *Case) program(sfx string) program {
 			body = fmt.Sprintf("(progn (defvar *als%d%s* 1) (let ((n 0) (m 0)) (do-all-symbols (s) (setq m (+ m 1)) (when (eq s '*als%d%s*) (setq n (+ n 1)))) (sim-emit \"r\" %d n (> m 100))))", t, sfx, t, sfx, t)
 		case "unintern":
 			body = fmt.Sprintf("(progn (defvar *un%d%s* 1) (sim-emit \"r\" %d (boundp '*un%d%s*) (unintern '*un%d%s*) (boundp '*un%d%s*)))", t, sfx, t, t, sfx, t, sfx, t, sfx)
+		case "readbase":
+			// the same tokens read under let-bound reader variables that
+			// differ from routine to routine (seeded change C02-n1: a process
+			// wide cache of resolved tokens tagged with one set of reader
+			// variables)
+			body = fmt.Sprintf("(let ((*read-base* %d) (*read-default-float-format* '%s)) (dotimes (k 4) (sim-emit \"r\" %d (let ((v (read-from-string \"(f0d2e 10 ff 17 abc 1.5 1e2 z9)\"))) (list v (mapcar 'type-of v))))))",
+				[]int{16, 10, 8, 36}[t%4], []string{"double-float", "single-float"}[t%2], t)
 		case "lookup":
 			// only looks things up, while others define
 			spell := []string{":cl", "\"CL\"", "\"common-lisp\"", "\"Common-Lisp\"", ":gi", "\"cl-user\"", "\"Common-Lisp-User\""}
@@ -1268,6 +1304,8 @@ func (e *engine) Shrink(raw json.RawMessage) (out []json.RawMessage) {
 		func(n *Case) bool { n.TimeJumpPct = 0; return c.TimeJumpPct > 0 },
 		func(n *Case) bool { n.Procs = 16; return c.Procs != 16 },
 		func(n *Case) bool { n.ConsFirst = false; return c.ConsFirst },
+		func(n *Case) bool { n.ViaFn = false; return c.ViaFn },
+		func(n *Case) bool { n.Shorts--; return c.Shorts > 0 },
 		func(n *Case) bool { n.Cap = 0; return c.Cap > 0 },
 	} {
 		n := clone()
